@@ -11,13 +11,25 @@ import StorageModel.Generated.PagingFacts
 namespace StorageModel.Query.Wire
 open StorageModel StorageModel.Query
 
+/-- a second set of symbol names for the six stored fields (registered with `AddSymbolWithKey` / as further map keys
+    of the object stores): names that contain or end in ZitiQL keywords.  alias ↦ the field it reads. -/
+def aliasTable : List (String × String) :=
+  [("shortDesc", "s"), ("sortBy", "s"), ("nota", "s"), ("'desc'", "s"), ("ShortDESC", "s"), ("containsx", "s"), ("idx", "i"), ("inx", "i"), ("limitX", "i"), ("android", "i"), ("iDesc", "i"), ("skipper", "n"), ("basc", "n"), ("ore", "n"), ("byB", "b"), ("nullable", "b"), ("isEmptyB", "b"), ("trueish", "b"), ("fdesc", "f"), ("ascending", "f"), ("noneF", "f"), ("betweenx", "f"), ("descT", "t"), ("fromT", "t"), ("whereabouts", "t"), ("t_desc", "t")]
+
+def baseOf (name : String) : String := (aliasTable.lookup name).getD name
+
+def baseType (base : String) : SymType :=
+  if base == "b" then .bool else if base == "i" || base == "n" then .int64 else if base == "f" then .float64
+  else if base == "t" then .datetime else .string
+
 /-- `store.symbols` of the harness store "things": the six typed fields, the set symbol `roles`, the
     fk symbol `owner` (a plain string symbol holding the owner's id) and `a`, registered with
     `NodeTypeAnyType` (a type `newRowComparator` has no comparator for) -/
 def wireSchema : Schema :=
   [("id", ⟨.string, false⟩), ("b", ⟨.bool, false⟩), ("i", ⟨.int64, false⟩), ("n", ⟨.int64, false⟩),
    ("f", ⟨.float64, false⟩), ("s", ⟨.string, false⟩), ("t", ⟨.datetime, false⟩), ("roles", ⟨.string, true⟩),
-   ("owner", ⟨.string, false⟩), ("a", ⟨.other, false⟩)]
+   ("owner", ⟨.string, false⟩), ("a", ⟨.other, false⟩)] ++
+  aliasTable.map fun (a, b) => (a, ⟨baseType b, false⟩)
 
 /-- the child stores were granted the parent's symbols and add their own `code` -/
 def childSchema : Schema := wireSchema ++ [("code", ⟨.string, false⟩)]
@@ -33,7 +45,8 @@ def wireStores : Stores :=
                 maps := [], links := [("things", "root")] })]
 
 def objSymbolsDecl : List (String × SymType) :=
-  [("id", .string), ("b", .bool), ("i", .int64), ("n", .int64), ("f", .float64), ("s", .string), ("t", .datetime)]
+  [("id", .string), ("b", .bool), ("i", .int64), ("n", .int64), ("f", .float64), ("s", .string), ("t", .datetime)] ++
+  aliasTable.map fun (a, b) => (a, baseType b)
 
 /-- the object stores the harness builds over one collection: `full` (every Add…Symbol kind), `sub` (only id, s, i),
     `noid` (everything but the id symbol) -/
@@ -114,7 +127,10 @@ def parseRow (s : String) : Option WRow :=
     let fs : Stored ← colTok (fun _ => none) st
     let ft : Stored ← colTok (fun t => t.toInt?.map .time) t
     let rs := if roles.length ≤ 1 then [] else ((roles.drop 1).toString).splitOn "."
-    pure ⟨⟨asciiBytes id, [("b", fb), ("i", fi), ("n", fn), ("f", ff), ("s", fs), ("t", ft)]⟩, rs, child, owner⟩
+    let base : List (String × Stored) := [("b", fb), ("i", fi), ("n", fn), ("f", ff), ("s", fs), ("t", ft)]
+    -- an alias reads the same stored field
+    let aliases := aliasTable.map fun (a, b) => (a, (base.lookup b).getD .nil)
+    pure ⟨⟨asciiBytes id, base ++ aliases⟩, rs, child, owner⟩
   | _ => none
 
 /-- dataset token: `-` no bucket, `0` empty bucket -/
@@ -136,7 +152,7 @@ def parseAtom (s : String) : Option Filter :=
   | ["notnull", f] => some (.notNull f)
   | ["cmp", f, op, c] => do
     let op ← parseOp op
-    match f with
+    match baseOf f with
     | "b" => some (.cmpBool f op (c == "1"))
     | "i" | "n" => c.toInt?.map (.cmpInt f op)
     | "f" => (hexNat c).map (.cmpFloat f op)
@@ -178,7 +194,8 @@ def parseSort (s : String) : Option (List SortField) :=
     else
       let name := (sf.dropEnd 1).toString
       let d := (sf.takeEnd 1).toString
-      some ⟨name, d != "-"⟩
+      -- + ASC, ~ no keyword, ^ asc  |  - DESC, * desc, ! DeSc
+      some ⟨name, d != "-" && d != "*" && d != "!"⟩
 
 def parseNum (s : String) : Option (Option NumTok) :=
   if s == "-" then some none
